@@ -35,6 +35,8 @@ struct DerivedTS {
 
 impl DerivedTS {
     fn into_impl(mut self, rust_ty: Ident, generics: Generics) -> Result<TokenStream> {
+        utils::assert_declarable_name(&self.ts_name)?;
+
         let export = self
             .export
             .then(|| self.generate_export_test(&rust_ty, &generics))
